@@ -52,6 +52,11 @@ pub struct Held {
 #[derive(Clone, Debug, Default, Serialize, Deserialize, PartialEq, Eq, Hash)]
 pub struct DirtyCtx {
     pub warmups: Vec<Warm>,
+    /// warm-ups with the harness under test ITSELF in a neighbouring configuration: each differs
+    /// from the run under test in exactly one field (seed, preset / one preset parameter, n).
+    /// They run after the other warm-ups, i.e. closest to the run under test.
+    #[serde(default)]
+    pub neighbours: Vec<Warm>,
     pub held: Vec<Held>,
     /// `buggify::set_config(fault_config(i))` before the run under test is constructed
     pub ambient: Option<u8>,
@@ -91,6 +96,15 @@ pub fn fault_config(i: u8) -> FaultConfig {
 
 /// The fault preset the run under test installs itself (None: the harness installs none).
 fn own_preset(harness: &str, preset: &str) -> Option<FaultConfig> {
+    if harness == "redis_dst" && preset.contains('=') {
+        return Some(if preset.contains("faults=calm") {
+            FaultConfig::calm()
+        } else if preset.contains("faults=chaos") {
+            FaultConfig::chaos()
+        } else {
+            FaultConfig::moderate()
+        });
+    }
     match (harness, preset) {
         ("dst", "calm") | ("redis_dst", "calm") => Some(FaultConfig::calm()),
         ("dst", "chaos") | ("dst", "chaos8") | ("redis_dst", "chaos") => Some(FaultConfig::chaos()),
@@ -154,7 +168,7 @@ fn probe(harness: &str, preset: &str, seed: u64, enabled_fallback: u8) {
 /// run executes.
 pub fn with_dirty_context<R>(ctx: &DirtyCtx, harness: &str, preset: &str, seed: u64, body: impl FnOnce() -> R) -> R {
     // 1. transient warm-ups, run to completion and dropped
-    for w in &ctx.warmups {
+    for w in ctx.warmups.iter().chain(ctx.neighbours.iter()) {
         let _ = vcore::runner::catch(|| run_harness(&w.harness, w.seed, &w.preset, w.n));
     }
     // 2. held objects, constructed before the run under test
